@@ -221,6 +221,21 @@ check("C04",
       "TLA+ spec (LinModel.tla) model-checked by TLC + TLC validation of recorded outputs of the real model classes",
       "DESIGN.md C04")
 
+check("C14",
+      "TLC builds the trial table block by block (one action per replicate block, environment-major) and checks record count, "
+      "exactly-once, layout and the position function for every design with <=3 taxa, <=3 environments and <=2 replicates. The "
+      "real G_E_Phenotyping is driven with a scripted multivariate_normal that returns integer environment / replicate / "
+      "per-record error effects (the request log must show exactly that effect structure), zero-variance trials and "
+      "TruePhenotyping are included; every record (labels, environment, replicate, value) is validated by TLC. "
+      "MeanPhenotypicBreedingValue.estimate on shuffled tables with permuted, extra and missing genotype taxa (arithmetic "
+      "mean per taxon, alignment to the genotype order, missing reported) and set_h2/set_H2 (error variance = (1-h2)/h2 * "
+      "genetic variance in exact rationals) are validated by TLC. Realised environment / replicate / error variance "
+      "components of large real-generator trials are z-tested against the requested ones.",
+      "Scripted integer effects make record values exact integers; variance sanity at |z|<=5.5 with one independent 4x "
+      "re-test, assuming numpy's normal generator.",
+      "TLA+ spec (Phenotyping.tla) model-checked by TLC + scripted-generator replay and TLC validation of recorded trials / estimates",
+      "DESIGN.md C14")
+
 def build():
     checks = []
     for pid in sorted(CHECKS):
